@@ -5,6 +5,7 @@ import (
 	"flag"
 	"fmt"
 	"os"
+	"path/filepath"
 	"strconv"
 )
 
@@ -46,6 +47,8 @@ func main() {
 		fmt.Println("INFRA:", err)
 		os.Exit(2)
 	}
+	scratchGoCache = filepath.Join(*scratch, "gocache")
+	_ = os.MkdirAll(scratchGoCache, 0o755)
 	rs := newRunState(*pid, *tier, seed, t)
 	if *replay != "" {
 		os.Exit(rs.replayFile(*replay))
